@@ -100,12 +100,6 @@ theorem xorBytes_cancel_left (k x : Bytes) (h : x.length ≤ k.length) : xorByte
       have : a ^^^ (a ^^^ b) = b := by rw [← UInt8.xor_assoc, UInt8.xor_self, UInt8.zero_xor]
       rw [this, ih x (by simpa using h)]
 
-/-- the four bytes of a 32-bit word, least significant first (how the WEP ICV is laid out) -/
-def le32 (w : UInt32) : Bytes :=
-  [w.toUInt8, (w >>> 8).toUInt8, (w >>> 16).toUInt8, (w >>> 24).toUInt8]
-
-@[simp] theorem le32_length (w : UInt32) : (le32 w).length = 4 := rfl
-
 def Bytes.toNatBE (b : Bytes) : Nat := b.foldl (fun acc x => acc * 256 + x.toNat) 0
 
 end Tins.Crypto
